@@ -85,7 +85,9 @@ class Handlers(UserDict):
     def __init__(self, initial: Optional[Mapping[str, BaseHandler]] = None) -> None:
         self._resolve: ResolverMethod = self._create_resolver()
 
-        handlers: Mapping[str, BaseHandler] = initial or {
+        # NOTE: An explicitly passed empty mapping means no handlers at all,
+        #   not the defaults; copy() of an emptied instance relies on this.
+        handlers: Mapping[str, BaseHandler] = initial if initial is not None else {
             MEDIA_JSON: JSONHandler(),
             MEDIA_MULTIPART: MultipartFormHandler(),
             MEDIA_URLENCODED: URLEncodedFormHandler(),
